@@ -424,17 +424,7 @@ func checkC14(c *Ctx, r *Report) {
 	}
 
 	r.Rule("errors-abort", "every return other than the final one returns a nil map and a non-nil error; the final return is reached only through the 0xFFFF exit", 3)
-	// the records of an abandoned walk must not survive: the map is allocated by the walk itself
-	freshMap := true
-	mos := viewOrigins(walk, mu.Map)
-	for _, o := range mos {
-		switch o.(type) {
-		case *ssa.MakeMap:
-		default:
-			freshMap = false
-		}
-	}
-	r.Check(freshMap && len(mos) > 0, name+"|fresh result per walk", mu.Pos(), "each walk fills a map of its own", "records are added to a map that outlives the walk: when a walk is abandoned (reservation lost, repository changed) its records survive into the result")
+	checkWalkFreshMap(c, r, walk, mu)
 	for _, ret := range returnsOf(walk) {
 		if len(ret.Results) != 2 {
 			continue
@@ -748,4 +738,20 @@ func checkWalkErrorsAbort(c *Ctx, r *Report, walk *ssa.Function) {
 	} else {
 		r.Check(okW, name+"|walk errors", posW, "every failed exchange ends the walk with an error", whyW)
 	}
+}
+
+// checkWalkFreshMap: the records of an abandoned walk must not survive: the map the walk fills
+// is allocated by the walk itself (shared with C17: nothing read during an earlier pass, or an
+// earlier call, is in a later result).
+func checkWalkFreshMap(c *Ctx, r *Report, walk *ssa.Function, mu *ssa.MapUpdate) {
+	freshMap := true
+	mos := viewOrigins(walk, mu.Map)
+	for _, o := range mos {
+		switch o.(type) {
+		case *ssa.MakeMap:
+		default:
+			freshMap = false
+		}
+	}
+	r.Check(freshMap && len(mos) > 0, c.FnName(walk)+"|fresh result per walk", mu.Pos(), "each walk fills a map of its own", "records are added to a map that outlives the walk: when a walk is abandoned (reservation lost, repository changed) its records survive into the result")
 }
